@@ -146,7 +146,27 @@ func listFuncLits(root, sub string) (map[string]int, error) {
 }
 
 // newFuncKeys: function keys present in the tree but not in the recorded baseline.
+// forcedHelpers: helpers of the pinned tree that are expanded into their callers as well, so that the
+// rules see one canonical shape whether such a helper exists, was merged with a sibling, or was written
+// in line (each entry is named by a rule that analyses the caller's region instead of the helper).
+var forcedHelpers = []string{
+	"tars/protocol/codec|Reader|skipFieldMap",
+	"tars/protocol/codec|Reader|skipFieldList",
+	"tars/protocol/codec|Reader|skipFieldSimpleList",
+}
+
 func newFuncKeys(repo string) map[string]bool {
+	out := newFuncKeys0(repo)
+	if out == nil {
+		return nil
+	}
+	for _, k := range forcedHelpers {
+		out[k] = true
+	}
+	return out
+}
+
+func newFuncKeys0(repo string) map[string]bool {
 	base := baselineSet()
 	if len(base) == 0 {
 		return nil
@@ -726,7 +746,10 @@ func (il *inliner) collectStmt(f *ilFile, s ast.Stmt, ret *retCtx, tail bool) []
 		if il.litOK && x.Tok == token.DEFINE && len(x.Lhs) == 1 && len(x.Rhs) == 1 {
 			if id, ok := x.Lhs[0].(*ast.Ident); ok {
 				if h := il.litVars[f.pkg.TypesInfo.Defs[id]]; h != nil {
-					return mk(f.text(s.Pos(), s.End()) + "; _ = " + id.Name)
+					// every use is a call that is expanded in place: the definition goes away (if a call could
+					// not be expanded the overlay does not compile and the loader falls back to the source as written)
+					nl := strings.Count(f.text(s.Pos(), s.End()), "\n")
+					return mk("{}" + strings.Repeat("\n", nl))
 				}
 			}
 		}
